@@ -275,7 +275,19 @@ def _c06(tier, seed):
     return [dict(name="handshake", pkg=".", harness=NET_HARNESS + ["harness/root/c06.go"], runs=runs, solver="cvc5", qtimeout=20000, walllimit=(400 if q else 1500), timeout=3000,
                  replay=False, validate=False, noreplay_reason="the client's random draws (nonces, DH exponent) and SplitPQ are supplied through engine-side hooks; natively they cannot be pinned without source hooks")]
 
+def _c07(tier, seed):
+    runs = ["H_C07_lying_server(%d)" % k for k in range(1, 17)]
+    return [dict(name="lying", pkg=".", harness=NET_HARNESS + ["harness/root/c06.go"], runs=runs, solver="cvc5", qtimeout=20000, walllimit=(300 if tier == "quick" else 1200), timeout=3000,
+                 replay=False, validate=False, noreplay_reason="the client's random draws and SplitPQ are supplied through engine-side hooks")]
+
 PROPS = {
+    "C07": dict(
+        jobs=_c07,
+        bounds={"quick": "16 kinds of inconsistency injected one at a time into an otherwise conformant exchange (wrong nonce / server_nonce at each of the three steps and inside the inner data, no matching fingerprint incl. an empty list, server_DH_params_fail, a SHA-1 prefix that matches no split of content and padding, garbage or short encrypted answers, an inner object of another type, wrong new_nonce_hash1, dh_gen_retry, dh_gen_fail); the wrong value is symbolic (every value different from the right one)",
+                "thorough": "same, longer exploration"},
+        outside="several inconsistencies at once; bit flips inside the ciphertext of the DH answer other than through its SHA-1 prefix (they reach the same comparison); as C06",
+        assumptions=["as C06", "SHA-1 collision-free on the path"],
+    ),
     "C06": dict(
         jobs=_c06,
         bounds={"quick": "the real makeAuthKey against a reference server written from the auth_key specification, over the fake transport: nonce, new_nonce and server_nonce with 0 or 1 leading zero bytes (one field at a time; 2 in the thorough tier), all other nonce bits symbolic; symbolic RSA-2048 modulus, DH prime, server secret a and client exponent b; RSA ciphertext, g_b, g^ab and new_nonce_hash1 explored for 0..2 leading zero bytes (forks on big.Int.Bytes()); server padding of 0..15 arbitrary or zero bytes; one pq (1229739323*1402015859)",
